@@ -2168,6 +2168,9 @@ func ruleShortLoop(c *eng.Ctx) {
 			if !isInd || ph == nil || ph != cmp.X {
 				return
 			}
+			if iff.Block() != ph.Block() {
+				return // a test inside the body (is this the last element?), not the bound of the loop
+			}
 			// bound = len(x) - k
 			sub, ok := cmp.Y.(*ssa.BinOp)
 			if !ok || sub.Op != token.SUB {
